@@ -183,6 +183,7 @@ class no_cache(object):
             return CacheInfo(stats[HIT], stats[MISS], stats[LOAD], maxsize, len(cache))
 
         # interface
+        update_wrapper(wrapper, user_function) # (first: it also copies attributes)
         wrapper.__wrapped__ = user_function
         #XXX: better is handle to key_function=keygen(ignore)(user_function) ?
         wrapper.info = info
@@ -197,7 +198,7 @@ class no_cache(object):
         wrapper.__mask__ = __get_mask
         wrapper.__map__ = __get_keymap
        #wrapper._queue = None  #XXX
-        return update_wrapper(wrapper, user_function)
+        return wrapper
 
     def __get__(self, obj, objtype):
         """support instance methods"""
@@ -363,6 +364,7 @@ class inf_cache(object):
             return CacheInfo(stats[HIT], stats[MISS], stats[LOAD], maxsize, len(cache))
 
         # interface
+        update_wrapper(wrapper, user_function) # (first: it also copies attributes)
         wrapper.__wrapped__ = user_function
         #XXX: better is handle to key_function=keygen(ignore)(user_function) ?
         wrapper.info = info
@@ -377,7 +379,7 @@ class inf_cache(object):
         wrapper.__mask__ = __get_mask
         wrapper.__map__ = __get_keymap
        #wrapper._queue = None  #XXX
-        return update_wrapper(wrapper, user_function)
+        return wrapper
 
     def __get__(self, obj, objtype):
         """support instance methods"""
@@ -581,6 +583,7 @@ class lfu_cache(object):
             return CacheInfo(stats[HIT], stats[MISS], stats[LOAD], maxsize, len(cache))
 
         # interface
+        update_wrapper(wrapper, user_function) # (first: it also copies attributes)
         wrapper.__wrapped__ = user_function
         #XXX: better is handle to key_function=keygen(ignore)(user_function) ?
         wrapper.info = info
@@ -595,7 +598,7 @@ class lfu_cache(object):
         wrapper.__mask__ = __get_mask
         wrapper.__map__ = __get_keymap
        #wrapper._queue = use_count #XXX
-        return update_wrapper(wrapper, user_function)
+        return wrapper
 
     def __get__(self, obj, objtype):
         """support instance methods"""
@@ -828,6 +831,7 @@ class lru_cache(object):
             return CacheInfo(stats[HIT], stats[MISS], stats[LOAD], maxsize, len(cache))
 
         # interface
+        update_wrapper(wrapper, user_function) # (first: it also copies attributes)
         wrapper.__wrapped__ = user_function
         #XXX: better is handle to key_function=keygen(ignore)(user_function) ?
         wrapper.info = info
@@ -842,7 +846,7 @@ class lru_cache(object):
         wrapper.__mask__ = __get_mask
         wrapper.__map__ = __get_keymap
        #wrapper._queue = queue #XXX
-        return update_wrapper(wrapper, user_function)
+        return wrapper
 
     def __get__(self, obj, objtype):
         """support instance methods"""
@@ -1053,6 +1057,7 @@ class mru_cache(object):
             return CacheInfo(stats[HIT], stats[MISS], stats[LOAD], maxsize, len(cache))
 
         # interface
+        update_wrapper(wrapper, user_function) # (first: it also copies attributes)
         wrapper.__wrapped__ = user_function
         #XXX: better is handle to key_function=keygen(ignore)(user_function) ?
         wrapper.info = info
@@ -1067,7 +1072,7 @@ class mru_cache(object):
         wrapper.__mask__ = __get_mask
         wrapper.__map__ = __get_keymap
        #wrapper._queue = queue #XXX
-        return update_wrapper(wrapper, user_function)
+        return wrapper
 
     def __get__(self, obj, objtype):
         """support instance methods"""
@@ -1263,6 +1268,7 @@ class rr_cache(object):
             return CacheInfo(stats[HIT], stats[MISS], stats[LOAD], maxsize, len(cache))
 
         # interface
+        update_wrapper(wrapper, user_function) # (first: it also copies attributes)
         wrapper.__wrapped__ = user_function
         #XXX: better is handle to key_function=keygen(ignore)(user_function) ?
         wrapper.info = info
@@ -1277,7 +1283,7 @@ class rr_cache(object):
         wrapper.__mask__ = __get_mask
         wrapper.__map__ = __get_keymap
        #wrapper._queue = None  #XXX
-        return update_wrapper(wrapper, user_function)
+        return wrapper
 
     def __get__(self, obj, objtype):
         """support instance methods"""
